@@ -1,6 +1,7 @@
 package main
 
 import (
+	"runtime"
 	"errors"
 	"io"
 	"net"
@@ -28,6 +29,7 @@ type sconn struct {
 	wbuf     []byte
 	nblocks  int
 	returned bool
+	slow     bool // Write takes its time before it looks at the bytes (a slow socket): the caller's buffer must stay untouched meanwhile
 }
 
 type sAddr string
@@ -75,6 +77,12 @@ func (c *sconn) Read(p []byte) (int, error) {
 }
 
 func (c *sconn) Write(p []byte) (int, error) {
+	if c.slow {
+		for i := 0; i < 4; i++ {
+			runtime.Gosched()
+		}
+		time.Sleep(150 * time.Microsecond)
+	}
 	c.mu.Lock()
 	defer c.mu.Unlock()
 	if c.closed {
